@@ -50,6 +50,16 @@ def owns(prop, dis):
             flip = 'accept->reject'
         else:
             flip = 'reject->accept'
+        if flip == 'accept->reject' and flip not in p.get('status', ()):
+            # the model - about which the theorems speak - accepts this item and gives it the impls the property describes; the real
+            # macro refuses it: for this input the property's conclusion cannot hold (there is no `default()` / `clone()` to call).
+            # Owned by every property one of whose traits the item requests; the item is the failing input.
+            b = p.get('bodies')
+            if not b:
+                return False
+            import re
+            src = dis.get('src', '')
+            return any(re.search(r'\b%s\b' % t, src) for t in (b if b != 'all' else ['derive_where']))
         if flip not in p.get('status', ()):
             return False
         f = p.get('status_filter')
